@@ -333,10 +333,16 @@ func TestVerifBigIntBridge(t *testing.T) {
 	// after a failed decode math/big can leave a zero with the previous sign flag; an inline BigInt stores it as a
 	// plain zero, a heap-resident one holds that very big.Int: value and Sign must agree, the other observers are
 	// compared only when math/big's own value is well formed
-	checkDecoded := func(what string, got *BigInt, w *big.Int) {
+	checkDecoded := func(what string, got *BigInt, w *big.Int, succeeded bool) {
 		if len(w.Bits()) == 0 && w.Cmp(new(big.Int)) != 0 {
 			if got.Sign() != 0 || got.MathBigInt().Sign() != 0 || len(got.MathBigInt().Bits()) != 0 {
 				t.Fatalf("%s: got %s (sign %d) want zero", what, got.String(), got.Sign())
+			}
+			// zero is never negative, whichever path produced it - also where math/big's own value is a zero with the sign
+			// flag set (a successful GobDecode of {3}): every observer of the BigInt must see a plain zero
+			// (after a failed decode the value is undefined, as in math/big: only value and Sign are compared there)
+			if succeeded && (got.Cmp(new(BigInt)) != 0 || new(BigInt).Cmp(got) != 0 || !got.IsUint64() || !got.IsInt64() || got.CmpAbs(new(BigInt)) != 0) {
+				t.Fatalf("%s: the result is a negative zero (Cmp(0) = %d, IsUint64 = %v)", what, got.Cmp(new(BigInt)), got.IsUint64())
 			}
 			return
 		}
@@ -347,39 +353,42 @@ func TestVerifBigIntBridge(t *testing.T) {
 	// (the partial digits were written into the BigInt's own inline words through the header)
 	for _, zs := range pool {
 		for rep := 0; rep < 2; rep++ {
-			for _, txt := range []string{"0z", "12x", "1e5", "-7q", "", "-", "99999999999999999999999999999999999999999z", "0x1g", "null", "nul", "123", "-45", "+5", "\"12\"", " 7", "340282366920938463463374607431768211456", "-0"} {
+			for _, txt := range []string{"0z", "12x", "1e5", "-7q", "", "-", "99999999999999999999999999999999999999999z", "0x1g", "null", "nul", "123", "-45", "+5", "\"12\"", " 7", "340282366920938463463374607431768211456", "-0",
+				// gob encodings: version 1 with the sign bit set and an empty magnitude (math/big adopts the sign as it is), plain zero,
+				// a negative zero with a leading zero byte, small values of both signs, an unsupported version
+				"\x03", "\x02", "\x03\x00", "\x02\x05", "\x03\x05", "\x05\x01"} {
 				z, w := mk(zs, rep == 1), mb(zs)
 				e1, e2 := z.UnmarshalText([]byte(txt)), w.UnmarshalText([]byte(txt))
 				if (e1 == nil) != (e2 == nil) {
 					t.Fatalf("UnmarshalText(%q) on %s: error mismatch", txt, zs)
 				}
-				checkDecoded(fmt.Sprintf("UnmarshalText(%q) on %s", txt, zs), z, w)
+				checkDecoded(fmt.Sprintf("UnmarshalText(%q) on %s", txt, zs), z, w, e1 == nil)
 				z, w = mk(zs, rep == 1), mb(zs)
 				e1, e2 = z.UnmarshalJSON([]byte(txt)), w.UnmarshalJSON([]byte(txt))
 				if (e1 == nil) != (e2 == nil) {
 					t.Fatalf("UnmarshalJSON(%q) on %s: error mismatch", txt, zs)
 				}
-				checkDecoded(fmt.Sprintf("UnmarshalJSON(%q) on %s", txt, zs), z, w)
+				checkDecoded(fmt.Sprintf("UnmarshalJSON(%q) on %s", txt, zs), z, w, e1 == nil)
 				z, w = mk(zs, rep == 1), mb(zs)
 				_, ok1 := z.SetString(txt, 10)
 				_, ok2 := w.SetString(txt, 10)
 				if ok1 != ok2 {
 					t.Fatalf("SetString(%q) on %s: ok mismatch", txt, zs)
 				}
-				checkDecoded(fmt.Sprintf("SetString(%q) on %s", txt, zs), z, w)
+				checkDecoded(fmt.Sprintf("SetString(%q) on %s", txt, zs), z, w, ok1)
 				z, w = mk(zs, rep == 1), mb(zs)
 				e1, e2 = z.GobDecode([]byte(txt)), w.GobDecode([]byte(txt))
 				if (e1 == nil) != (e2 == nil) {
 					t.Fatalf("GobDecode(%q) on %s: error mismatch", txt, zs)
 				}
-				checkDecoded(fmt.Sprintf("GobDecode(%q) on %s", txt, zs), z, w)
+				checkDecoded(fmt.Sprintf("GobDecode(%q) on %s", txt, zs), z, w, e1 == nil)
 				z, w = mk(zs, rep == 1), mb(zs)
 				_, e1 = fmt.Sscan(txt, z)
 				_, e2 = fmt.Sscan(txt, w)
 				if (e1 == nil) != (e2 == nil) {
 					t.Fatalf("Sscan(%q) on %s: error mismatch", txt, zs)
 				}
-				checkDecoded(fmt.Sprintf("Scan(%q) on %s", txt, zs), z, w)
+				checkDecoded(fmt.Sprintf("Scan(%q) on %s", txt, zs), z, w, e1 == nil)
 				cases += 5
 			}
 		}
